@@ -4,6 +4,8 @@ package dpos
 
 import (
 	"context"
+	"fmt"
+	"sort"
 	"time"
 
 	"github.com/aergoio/aergo/v2/consensus/impl/dpos/slot"
@@ -44,3 +46,68 @@ func (dpos *DPoS) VerifBPs() []string {
 	}
 	return out
 }
+
+// VerifCtx holds the package-level state that is really per node: the boot loader (its chain
+// DB is read again whenever the LIB status is rolled back in a reorganization) and the last
+// queued slot.
+type VerifCtx struct {
+	bs *bootLoader
+	lj *lastSlot
+}
+
+func VerifSaveCtx() VerifCtx { return VerifCtx{bsLoader, lastJob} }
+func VerifRestoreCtx(c VerifCtx) {
+	bsLoader = c.bs
+	if c.lj != nil {
+		lastJob = c.lj
+	}
+}
+
+// VerifFreshCtx is installed before a node boots.
+func VerifFreshCtx() { bsLoader = nil; lastJob = &lastSlot{} }
+
+// VerifBpInfoSlot runs the producer's own decision for time now: nil error and a slot when this
+// node may produce now (member, owner of the slot, not yet produced, timing ok).
+func (dpos *DPoS) VerifWouldProduce(now time.Time) bool {
+	saved := lastJob.s
+	bpi := dpos.getBpInfo(now)
+	lastJob.s = saved
+	return bpi != nil
+}
+
+// VerifGenerateNow is QueueJob + the block factory's generateBlock for the job, without the
+// worker goroutines: the production path of a correct producer at local time now.
+func (dpos *DPoS) VerifGenerateNow(ctx context.Context, now time.Time, lpbNo types.BlockNo) (*types.Block, *state.BlockState, error, bool) {
+	bpi := dpos.getBpInfo(now)
+	if bpi == nil {
+		return nil, nil, nil, false
+	}
+	lastJob.set(bpi.slot)
+	b, bs, err := dpos.bf.generateBlock(ctx, bpi, lpbNo)
+	return b, bs, err, true
+}
+
+func (dpos *DPoS) VerifLibStatusDump() string {
+	dpos.Status.RLock()
+	defer dpos.Status.RUnlock()
+	ls := dpos.Status.libState
+	if ls == nil {
+		return ""
+	}
+	out := fmt.Sprintf("lib=%d/%s lpb=%d;", ls.Lib.BlockNo, ls.Lib.BlockHash, ls.LpbNo)
+	var ids []string
+	for id := range ls.Prpsd {
+		ids = append(ids, id)
+	}
+	sort.Strings(ids)
+	for _, id := range ids {
+		p := ls.Prpsd[id]
+		if p == nil || p.Plib == nil || p.PlibBy == nil {
+			continue
+		}
+		out += fmt.Sprintf("%s:%d/%s<-%d/%s;", id, p.Plib.BlockNo, p.Plib.BlockHash, p.PlibBy.BlockNo, p.PlibBy.BlockHash)
+	}
+	return out
+}
+
+func VerifMajority() uint16 { return majorityCount }
